@@ -73,6 +73,14 @@ def gen_cell(rng, col, cls, upper=False, tagged=False):
     return " ".join(words)
 
 
+def escaped_cell(rng, col):
+    """A short cell whose text contains literal markup, written with backslash escapes; returns (markup, visible text)."""
+    w1, w2 = word(rng, col, rng.randint(1, 4)), word(rng, col, rng.randint(1, 4))
+    t = "u"  # a registered tag whose letter belongs to no column alphabet
+    return rng.choice([("\\<%s>%s\\</%s>" % (t, w1, t), "<%s>%s</%s>" % (t, w1, t)), ("%s \\<%s> %s" % (w1, t, w2), "%s <%s> %s" % (w1, t, w2)),
+                       ("%s \\< %s" % (w1, w2), "%s < %s" % (w1, w2))])
+
+
 PROFILES = {
     "all-short": lambda rng, n: ["w1"] * n,
     "one-long": lambda rng, n: [("w40" if i == 0 else "w1") for i in range(n)],
@@ -163,6 +171,13 @@ def gen_table(rng):
             row.append(gen_cell(rng, c, cls, False, tagged))
         rows.append(row)
     hdr = [gen_cell(rng, c, rng.choice(["w1", "w1", "mid", "w5"]), True, False) for c in range(n)] if header else None
+    escaped = (not tagged) and rng.random() < 0.1
+    if escaped:
+        # some cells show literal markup, written with backslash escapes
+        for row in rows:
+            for c in range(n):
+                if rng.random() < 0.4:
+                    row[c] = escaped_cell(rng, c)[0]
     shared = (not tagged) and n >= 2 and rng.random() < 0.08
     if shared:
         # identical texts in several columns (column attribution by alphabet is not possible for these tables)
@@ -183,7 +198,7 @@ def gen_table(rng):
     wide = WIDE_TABLE[0]
     WIDE_TABLE[0] = False
     return dict(header=hdr, rows=rows, style=style, padding=padding, aligns=aligns, indent=indent, width=W, ansi=rng.random() < 0.5,
-                profile=prof, tagged=tagged, classes=classes, shared=shared, wide=wide, tty=rng.random() < 0.3)
+                profile=prof, tagged=tagged, classes=classes, shared=shared, wide=wide, tty=rng.random() < 0.3, escaped=escaped)
 
 
 def natural(case):
@@ -202,7 +217,8 @@ def classify(case, clause):
     lens, avail, wraps, long_cols = natural(case)
     if not wraps:
         return None
-    if case["tagged"] and clause in ("raises", "text-preserved", "column-span", "rectangle", "width"):
+    if (case["tagged"] or case.get("escaped")) and clause in ("raises", "text-preserved", "column-span", "rectangle", "width"):
+        # the wrapper knows nothing about markup: it cuts tags - and backslash escapes - apart
         cells = ([case["header"]] if case["header"] else []) + case["rows"]
         if any("<" in row[c] for row in cells for c in long_cols):
             return "style-tag-cut-by-wrapping"
@@ -251,6 +267,8 @@ def judge(sh, lab, case):
         sh.count("renders_with_wrapping")
     if case.get("wide"):
         sh.count("renders_wide_script")
+    if case.get("escaped"):
+        sh.count("renders_with_escaped_markup")
     if case.get("tty") and case["ansi"] and case["tagged"]:
         sh.count("renders_tagged_ansi_with_stdout_tty")
     if hdr != case["header"] or rows != case["rows"]:
@@ -351,6 +369,8 @@ def judge(sh, lab, case):
                 for i, ch in enumerate(l):
                     if ch.isalpha():
                         c = col_of(ch)
+                        if c is None and case.get("escaped") and ch == "u":
+                            continue  # the letter of the literal '<u>' markup
                         if c is None or c >= n or not (spans[c][0] <= i < spans[c][1]):
                             sh.violate("column-span", case, "character %r of column %r at offset %d outside its span %r" % (ch, c, i, spans[c] if c is not None and c < n else None),
                                        classify(case, "column-span"))
@@ -362,6 +382,8 @@ def judge(sh, lab, case):
             for i, ch in enumerate(l):
                 if ch.isalpha():
                     c = col_of(ch)
+                    if c is None and case.get("escaped") and ch == "u":
+                        continue
                     if c is None or c >= n:
                         sh.violate("column-span", case, "foreign character %r" % ch, classify(case, "column-span"))
                         return
@@ -372,8 +394,8 @@ def judge(sh, lab, case):
             for l in lines:
                 body = l[ind:]
                 chars = set(body) - set(" ")
-                if len(chars) != 1 or next(iter(chars)).isalnum():
-                    continue
+                if len(chars) != 1 or next(iter(chars)) not in "=-_~\u2500\u2501\u2550":
+                    continue  # not a horizontal rule
                 segs = [(m.start() + ind, m.end() + ind) for m in re.finditer(r"\S+", body)]
                 sh.count("rule_lines_checked")
                 last = -1
@@ -398,7 +420,7 @@ def judge(sh, lab, case):
     # (5) text preservation per column
     cells = ([case["header"]] if case["header"] else []) + case["rows"]
     for c in range(n):
-        want = "".join(re.sub(r"\s+", "", TAG.sub("", row[c])) for row in cells)
+        want = "".join(ch for row in cells for ch in TAG.sub("", row[c]) if ch.isalpha() and ch.lower() in LETTERS[c])
         got = "".join(ch for l in row_lines for ch in l if ch.isalpha() and ch.lower() in LETTERS[c])
         if got != want:
             k = next((i for i in range(min(len(got), len(want))) if got[i] != want[i]), min(len(got), len(want)))
